@@ -95,7 +95,7 @@ BAR_SPEC2 = r"""
 uninterp spec fn fs_lines(style: ProgressStyle, st: ProgressState, width: u16) -> Seq<LineType>;
 spec fn all_bars(ls: Seq<LineType>) -> bool { forall|i: int| 0 <= i < ls.len() ==> (#[trigger] ls[i]) is Bar }
 // size assumption on renderings and printed texts: few enough rows to count in 31 bits
-spec fn small(ls: Seq<LineType>) -> bool { lines_ok(ls) && forall|w: nat| 1 <= w <= 65535 ==> #[trigger] hts(ls, w, ls.len() as int) <= 0x3FFF_FFFF }
+spec fn small(ls: Seq<LineType>) -> bool { lines_ok(ls) && forall|w: nat| 1 <= w <= 65535 ==> #[trigger] hts(ls, w, ls.len() as int) <= 0x1FFF_FFFF }
 impl ProgressStyle {
     #[verifier::external_body]
     fn format_state(&self, state: &ProgressState, lines: &mut Vec<LineType>, target_width: u16)
@@ -150,6 +150,71 @@ spec fn draw_effect(a: ProgressDrawTarget, b: ProgressDrawTarget, f: bool, now: 
     &&& (a.own() matches Some(x) ==> (b.own() matches Some(y) && (req_case(a, b, f, now, lines, r, true, x, y) || req_case(a, b, f, now, lines, r, false, x, y))))
     &&& ((a.kind is Hidden || (a.kind is Term && a.hidden())) ==> b == a && r.is_ok())
 }
+proof fn lemma_hts_concat(a: Seq<LineType>, b: Seq<LineType>, w: nat, k: int)
+    requires 0 <= k <= b.len()
+    ensures hts(a + b, w, a.len() + k) == hts(a, w, a.len() as int) + hts(b, w, k)
+    decreases k
+{
+    if k == 0 {
+        lemma_hts_prefix(a, a + b, w, a.len() as int);
+    } else {
+        lemma_hts_concat(a, b, w, k - 1);
+        assert((a + b)[a.len() + k - 1] == b[k - 1]);
+    }
+}
+proof fn lemma_hts_prefix(a: Seq<LineType>, c: Seq<LineType>, w: nat, k: int)
+    requires 0 <= k <= a.len() <= c.len(), forall|i: int| 0 <= i < a.len() ==> a[i] == c[i]
+    ensures hts(c, w, k) == hts(a, w, k)
+    decreases k
+{
+    if k > 0 { lemma_hts_prefix(a, c, w, k - 1); }
+}
+proof fn lemma_small_concat(a: Seq<LineType>, b: Seq<LineType>, w: nat)
+    requires small(a), small(b), 1 <= w <= 65535
+    ensures lines_ok(a + b), hts(a + b, w, (a + b).len() as int) <= 0x3FFF_FFFE
+{
+    lemma_hts_concat(a, b, w, b.len() as int);
+    assert(hts(a, w, a.len() as int) <= 0x1FFF_FFFF);
+    assert(hts(b, w, b.len() as int) <= 0x1FFF_FFFF);
+    assert forall|i: int| 0 <= i < (a + b).len() implies cols(line_str(#[trigger] (a + b)[i])) <= 0xFFFF_FFFF && !is_cr(line_str((a + b)[i])) by {
+        if i < a.len() { assert((a + b)[i] == a[i]); } else { assert((a + b)[i] == b[i - a.len()]); }
+    }
+}
+proof fn lemma_small_empty_line()
+    ensures small(seq![LineType::Empty]), small(Seq::<LineType>::empty())
+{
+    axiom_cols_empty();
+    let e = seq![LineType::Empty];
+    assert(line_str(e[0]) == Seq::<char>::empty());
+    assert(seq!['\r'].len() == 1);
+    assert forall|w: nat| 1 <= w <= 65535 implies #[trigger] hts(e, w, e.len() as int) <= 0x1FFF_FFFF by {
+        reveal_with_fuel(hts, 3);
+        lemma_height_covers(0, w);
+        assert(ceil_div(0, w) <= 1);
+    }
+    assert forall|w: nat| 1 <= w <= 65535 implies #[trigger] hts(Seq::<LineType>::empty(), w, 0) <= 0x1FFF_FFFF by { }
+}
+// the frame a bar shows: nothing once cleared (DoneHidden), else its rendering at the target's width
+spec fn frame_of(b: BarState) -> Seq<LineType> {
+    if b.state.status is DoneHidden { Seq::<LineType>::empty() }
+    else { match b.draw_target.own() { Some(x) => fs_lines(b.style, b.state, x.0.w as u16), None => Seq::<LineType>::empty() } }
+}
+spec fn drew(a: ProgressDrawTarget, b: ProgressDrawTarget, f: bool, now: Instant, lines: Seq<LineType>) -> bool {
+    draw_effect(a, b, f, now, lines, Ok(())) || exists|e: IoError| #[trigger] draw_effect(a, b, f, now, lines, Err(e))
+}
+proof fn lemma_drew(a: ProgressDrawTarget, b: ProgressDrawTarget, f: bool, now: Instant, lines: Seq<LineType>, r: Result<(), IoError>)
+    requires draw_effect(a, b, f, now, lines, r)
+    ensures drew(a, b, f, now, lines)
+{
+    match r { Ok(u) => { assert(r == Ok::<(), IoError>(())); } Err(e) => { assert(draw_effect(a, b, f, now, lines, Err(e))); } }
+}
+// everything of a bar except its draw target
+spec fn rest_same(a: BarState, b: BarState) -> bool { a.state == b.state && a.style == b.style && a.on_finish == b.on_finish && a.tab_width == b.tab_width }
+// R5: Vec::extend with an owned vector
+#[verifier::external_body]
+fn vec_extend(v: &mut Vec<LineType>, more: Vec<LineType>) ensures final(v)@ == old(v)@ + more@ { v.extend(more) }
+#[verifier::external_body]
+fn clone_finish(f: &ProgressFinish) -> (r: ProgressFinish) ensures r == *f { unimplemented!() }
 """
 
 TK_RW = [Rw("R10", r"Box<dyn TermLike>", "Term"), Rw("R2", r"Arc<RwLock<MultiState>>", "MultiHandle")]
@@ -287,6 +352,8 @@ fn opt_allow(rl: &mut Option<RateLimiter>, now: Instant) -> (res: bool)
         Decl("src/state.rs", "struct", "BarState"),
         Raw(K.BAR_SPEC), Raw(BAR_SPEC2),
         Fn("src/state.rs", "ProgressState", "is_finished", ensures=[("def", "r == self.finished()")]),
+        Fn("src/state.rs", "ProgressState", "pos", rewrites=[K.AORD(1)], ensures=[("C07-pos", "r == self.pos.pos@")]),
+        Fn("src/state.rs", "ProgressState", "len", ensures=[("C07-len", "r == self.len")]),
         Fn(**dict(K.BAR_DRAW,
                   rewrites=[K.BOOL_OR_ASSIGN, Rw("R16", r"&mut draw_state\.lines", "&mut draw_state.state.lines"),
                             Rw("R9", r"drop\(draw_state\);", "draw_state.drop_impl();")],
@@ -327,12 +394,118 @@ fn opt_allow(rl: &mut Option<RateLimiter>, now: Instant) -> (res: bool)
         }
         __r
 """)],
-                  requires=[("target-wf", "old(self).draw_target.wf2()"), ("clock", "time_ok(now)")],
                   ensures=K.BAR_DRAW["ensures"] + [
-                      ("target-wf", "final(self).draw_target.wf2()"),
+                      ("frame-rest", "rest_same(*old(self), *final(self))"),
                       ("C04-C05-C06-draw-effect",
                        "draw_effect(old(self).draw_target, final(self).draw_target, force_draw || old(self).state.finished(), now, "
                        "(if old(self).state.status is DoneHidden { Seq::<LineType>::empty() } else { match old(self).draw_target.own() { Some(x) => fs_lines(old(self).style, old(self).state, x.0.w as u16), None => Seq::<LineType>::empty() } }), r)"),
                   ])),
+        Fn(**dict(K.BAR_UPDATE_AND_DRAW, rewrites=[K.AORD(1), K.TRACKERS_TICK],
+                  proofs=[(r"let _ = self\.draw\(false, now\);", "at", """let ghost a = self.draw_target; let ghost fin = self.state.finished();
+        let __r = self.draw(false, now);
+        proof { lemma_drew(a, self.draw_target, fin, now, frame_of(*self), __r); }""")],
+                  ensures=K.BAR_UPDATE_AND_DRAW["ensures"] + [
+                      ("C11-trackers-ticked", "final(self).style.tracker_log() == old(self).style.tracker_log().push((false, old(self).state.pos.pos@))"),
+                      ("C05-C06-draw-effect", "drew(old(self).draw_target, final(self).draw_target, old(self).state.finished(), now, frame_of(*final(self)))"),
+                  ])),
+        Fn("src/state.rs", "BarState", "tick", requires=K.BAR_REQ,
+           ensures=[K.BAR_WF_POST,
+                    ("tick-saturates", "final(self).state.tick == (if old(self).state.tick == u64::MAX { u64::MAX } else { (old(self).state.tick + 1) as u64 })"),
+                    ("C05-C06-draw-effect", "drew(old(self).draw_target, final(self).draw_target, old(self).state.finished(), now, frame_of(*final(self)))")]),
+        Fn(**dict(K.POS_SET, stub=True)),
+        Fn(**dict(K.BAR_FINISH,
+                  proofs=[(r"let _ = self\.draw\(true, now\);", "at", """let ghost a = self.draw_target;
+        let __r = self.draw(true, now);
+        proof { lemma_drew(a, self.draw_target, true, now, frame_of(*self), __r); }""")],
+                  ensures=K.BAR_FINISH["ensures"] + [
+                      ("C04-final-frame-always-painted", "drew(old(self).draw_target, final(self).draw_target, true, now, frame_of(*final(self)))")])),
+        Fn("src/draw_target.rs", "ProgressDrawTarget", "width", ret="r",
+           rewrites=[Rw("R10", r"term\.size\(\)\.1", "term.width()"), Rw("R2", r"state\.read\(\)\.unwrap\(\)\.width\(\)", "state.width()")],
+           requires=[("wf", "self.wf()")],
+           ensures=[("own-width", "self.own() matches Some(x) ==> r == Some(x.0.w as u16)"), ("hidden-none", "self.kind is Hidden ==> r is None")]),
+        Fn("src/draw_target.rs", "ProgressDrawTarget", "is_hidden", ret="r",
+           rewrites=[Rw("R2", r"state\.read\(\)\.unwrap\(\)\.is_hidden\(\)", "state.is_hidden()")],
+           ensures=[("C06-is-hidden", "r == self.hidden()")]),
+        Fn("src/draw_target.rs", "ProgressDrawTarget", "mark_zombie", sig_rewrites=[K.SELF_MUT],
+           rewrites=[Rw("R2", r"if let TargetKind::Multi \{ idx, state \} = &self\.kind", "if let TargetKind::Multi { idx, state } = &mut self.kind"),
+                     Rw("R2", r"state\.write\(\)\.unwrap\(\)\.mark_zombie\(\*idx\)", "state.mark_zombie(*idx)")],
+           ensures=[("own-untouched", "!(old(self).kind is Multi) ==> *final(self) == *old(self)"),
+                    ("same-kind", "final(self).same_kind(*old(self)) && final(self).ops() == old(self).ops() && (old(self).wf2() ==> final(self).wf2())")]),
+        Fn("src/state.rs", "BarState", "println", requires=K.BAR_REQ,
+           rewrites=[Rw("R5", r"msg\.lines\(\)\.map\(\|l\| LineType::Text\(Into::into\(l\)\)\)\.collect\(\)", "text_lines(msg)"),
+                     Rw("R16", r"draw_state\.lines\.push", "draw_state.state.lines.push"),
+                     Rw("R5", r"draw_state\.lines\.extend\(lines\)", "vec_extend(&mut draw_state.state.lines, lines)"),
+                     Rw("R16", r"&mut draw_state\.lines", "&mut draw_state.state.lines"),
+                     Rw("R9", r"drop\(draw_state\);", "draw_state.drop_impl();")],
+           proofs=[(r"draw_state\.drop_impl\(\);", "before", """        proof {
+            lemma_small_empty_line();
+            let texts = if text_lines_of(msg@).len() == 0 { seq![LineType::Empty] } else { text_lines_of(msg@) };
+            let fr = frame_of(*old(self));
+            if old(self).draw_target.own() is Some {
+                let w0 = old(self).draw_target.own().unwrap().0.w;
+                if fr.len() == 0 { assert(small(fr)); }
+                lemma_small_concat(texts, fr, w0);
+                assert(draw_state.state.lines@ =~= texts + fr);
+            }
+        }"""),
+                   (r"(?m)^\s*let _ = drawable\.draw\(\);\s*$", "at", """
+        let ghost dsnap = drawable;
+        let __r = drawable.draw();
+        proof {
+            let a = old(self).draw_target;
+            let b = self.draw_target;
+            let want = (if text_lines_of(msg@).len() == 0 { seq![LineType::Empty] } else { text_lines_of(msg@) }) + frame_of(*old(self));
+            assert(b.same_kind(a));
+            assert(a.hidden() ==> b.ops() == a.ops());
+            match dsnap {
+                Drawable::Term { term: t, last_line_count: l, draw_state: d } => {
+                    let x = a.own().unwrap(); let y = b.own().unwrap();
+                    assert(d.lines@ == want);
+                    assert(dtt_post(*d, *final(d), t@, final(t)@, *l, *final(l), __r));
+                    assert(x.0 == t@ && x.1 == *l);
+                    assert(y.0 == final(t)@ && y.1 == *final(l) && y.2 == *final(d));
+                    assert(d.move_cursor == x.2.move_cursor && d.alignment == x.2.alignment);
+                    assert(req_case(a, b, true, now, want, __r, true, x, y));
+                }
+                Drawable::TermLike { term_like: t, last_line_count: l, draw_state: d } => {
+                    let x = a.own().unwrap(); let y = b.own().unwrap();
+                    assert(d.lines@ == want);
+                    assert(dtt_post(*d, *final(d), t@, final(t)@, *l, *final(l), __r));
+                    assert(x.0 == t@ && x.1 == *l);
+                    assert(y.0 == final(t)@ && y.1 == *final(l) && y.2 == *final(d));
+                    assert(d.move_cursor == x.2.move_cursor && d.alignment == x.2.alignment);
+                    assert(req_case(a, b, true, now, want, __r, true, x, y));
+                }
+                _ => {}
+            }
+            assert(draw_effect(a, b, true, now, want, __r));
+            lemma_drew(a, b, true, now, want, __r);
+        }
+""")],
+           ensures=[K.BAR_WF_POST, ("frame-rest", "rest_same(*old(self), *final(self))"),
+                    ("C03-C06-println-effect",
+                     "drew(old(self).draw_target, final(self).draw_target, true, now, "
+                     "(if text_lines_of(msg@).len() == 0 { seq![LineType::Empty] } else { text_lines_of(msg@) }) + frame_of(*old(self)))")]),
+        Fn("src/state.rs", "Drop for BarState", "drop", rename="drop_impl",
+           rewrites=[Rw("R5", r"self\.on_finish\.clone\(\)", "clone_finish(&self.on_finish)")],
+           requires=[("target-wf", "old(self).draw_target.wf2()")],
+           ensures=[("C04-finished-bar-drop-paints-nothing", "old(self).state.finished() ==> rest_same(*old(self), *final(self)) && (!(old(self).draw_target.kind is Multi) ==> final(self).draw_target == old(self).draw_target)"),
+                    ("C04-unfinished-bar-drop-finishes", "!old(self).state.finished() ==> final(self).state.finished() && "
+                     "(!(old(self).draw_target.kind is Multi) ==> exists|t: Instant| #[trigger] drew(old(self).draw_target, final(self).draw_target, true, t, frame_of(*final(self))))"),
+                    ("C06-drop-silent-when-hidden", "final(self).draw_target.same_kind(old(self).draw_target) && (old(self).draw_target.hidden() ==> final(self).draw_target.ops() == old(self).draw_target.ops())")]),
+        # ---- ProgressBar glue that draws (C18: a failing terminal must not panic)
+        Raw("#[verifier::external_body]\nstruct TickerHandle { _p: core::marker::PhantomData<()> }\n"),
+        Decl("src/progress_bar.rs", "struct", "ProgressBar",
+             rewrites=[Rw("R2", r"Arc<Mutex<BarState>>", "BarState"), Rw("R2", r"Arc<AtomicPosition>", "AtomicPosition"), Rw("R2", r"Arc<Mutex<Option<Ticker>>>", "TickerHandle")]),
+        Fn("src/state.rs", "BarState", "set_tab_width", stub=True,
+           ensures=[("frame-target", "final(self).draw_target == old(self).draw_target && final(self).state.status == old(self).state.status && final(self).state.pos.pos@ == old(self).state.pos.pos@ && final(self).state.len == old(self).state.len")]),
+        Fn("src/progress_bar.rs", "ProgressBar", "set_tab_width", sig_rewrites=[K.SELF_MUT],
+           rewrites=[Rw("R2", r"let mut state = self\.state\(\);", "let state = &mut self.state;")],
+           requires=[("target-wf", "old(self).state.draw_target.wf2()")],
+           ensures=[("C18-no-panic-on-io-error", "final(self).state.draw_target.wf2()", ["C18"])]),
+        Fn("src/progress_bar.rs", "ProgressBar", "force_draw", sig_rewrites=[K.SELF_MUT],
+           rewrites=[Rw("R2", r"self\.state\(\)", "self.state", count=1)],
+           requires=[("target-wf", "old(self).state.draw_target.wf2()")],
+           ensures=[("C18-no-panic-on-io-error", "final(self).state.draw_target.wf2()", ["C18"])]),
     ],
 )
